@@ -475,9 +475,18 @@ package dag
 //@   trusted
 //@   benign
 //@   ensures isNilIface(result.1) ==> forall k int :: 0 <= k && k < len(result.0) ==> !isNilIface(result.0[k])
-//@ func (*treeStore).getZeroTo
+// What the store hands out for a clock is what its in-memory tree answers NOW, under the store's lock - nothing
+// remembered from an earlier call (the repair replaces pages of the tree directly, C08: "after repair").
+// ASSUMED about the tree: ZeroTo hands out a non-nil digest.
+//@ func (tree.Tree).ZeroTo
 //@   trusted
 //@   benign
+//@   ensures !isNilIface(result.0)
+//@ func (*treeStore).getZeroTo
+//@   prop C08
+//@   modifies nothing
+//@   ensures [answered-by-the-tree-as-it-is-now] did(call (tree.Tree).ZeroTo #1) && did(call (*sync.Mutex).Lock #1) && arg(call (tree.Tree).ZeroTo #1, 0) == old(store.tree)
+//@        && arg(call (tree.Tree).ZeroTo #1, 1) == clock && result.0 == ret(call (tree.Tree).ZeroTo #1).0 && result.1 == ret(call (tree.Tree).ZeroTo #1).1
 //@   ensures !isNilIface(result.0)
 //@ func (tree.Data).*
 //@   trusted
